@@ -742,8 +742,12 @@ def execute(shapes, argts, cases, noopt=False, per_tu=60, workers=int(os.environ
                 res.kind, partial, " | ".join(res.err.strip().split("\n")[:3]))
             todo = todo[k + 1:]
             restarts += 1
-            if restarts > 50:
-                raise common.InfraError("direct-template harness crashed more than 50 times")
+            if restarts >= 12:
+                # the crashing cases recorded so far are reported; do not grind through
+                # thousands of restarts of a thoroughly broken build
+                for ci, _ in todo:
+                    out[ci] = "SKIPPED after %d crashes of this translation unit" % restarts
+                return
 
     import concurrent.futures
     with concurrent.futures.ThreadPoolExecutor(max_workers=workers) as ex:
